@@ -19,6 +19,20 @@ Definition trace_faults (tr : list call) : list fault :=
 Definition trace_ucalls (tr : list call) : list (N * list uarg) :=
   flat_map (fun c => match c with CUser f args => [(f, args)] | _ => [] end) tr.
 
+(** the reports held by the error value returned by call [id]: what the final error is built from *)
+Fixpoint reports_under (tr : list call) (fuel : nat) (id : N) : list fault :=
+  match fuel with
+  | O => []
+  | S f =>
+    let self_of s := match s with Some x => reports_under tr f x | None => [] end in
+    match nth_opt tr (N.to_nat id) with
+    | Some (CError _ s k l) => FKind k l :: self_of s
+    | Some (CMerge _ s _ o _) => (reports_under tr f o ++ self_of s)%list
+    | Some (CMergeU _ s u l) => FUser u l :: self_of s
+    | _ => []
+    end
+  end.
+
 Definition count_sim {A} (eqb : A -> A -> bool) (x : A) (l : list A) : nat := List.length (filter (eqb x) l).
 Definition multiset_eq {A} (eqb : A -> A -> bool) (a b : list A) : bool :=
   Nat.eqb (List.length a) (List.length b)
@@ -40,7 +54,10 @@ Definition mon_c02 (c : dcase) : bool :=
   | Some s =>
     match dc_res c, s_out s with
     | ROk o, Some o' => out_sim o o' && Nat.eqb (List.length (trace_faults (dc_trace c))) 0
-    | RErr _, None => multiset_eq fault_sim (s_faults s) (trace_faults (dc_trace c))
+    | RErr e, None =>
+      (* the final error holds exactly one report per specified fault, and nothing else was reported *)
+      multiset_eq fault_sim (s_faults s) (reports_under (dc_trace c) (List.length (dc_trace c)) e)
+      && multiset_eq fault_sim (s_faults s) (trace_faults (dc_trace c))
     | _, _ => false
     end
   | None => false
